@@ -192,6 +192,9 @@ def r7_no_cohort_wide_decision(ctx):
 
 def rules(ctx):
     r1_separability(ctx)
+    # R1 takes `sum_dim(..., but_dim=LVL_IND)` as "every axis but the individuals is reduced": the helpers' bodies are compared with the confirmed forms
+    from ._shared import weighted_helper_forms
+    weighted_helper_forms(ctx, "C07.R1")
     r2_one_state_per_subject(ctx)
     r3_job_effects(ctx)
     r4_individual_sampler(ctx)
